@@ -2,6 +2,7 @@ import Goflow.Gen.History
 import Goflow.Gen.Frame
 import Goflow.Spec.SflowMap
 import Goflow.Basic.MsgDump
+import Goflow.Pipe
 namespace Goflow.Gen.C09
 open Goflow Goflow.Gen Goflow.Gen.History Goflow.Spec.Sflow Goflow.Spec.SflowMap
 
@@ -41,18 +42,22 @@ def genCase (i : Nat) : G (List String) := do
   let dg : Datagram := ⟨← Sflow.genIP, ← Sflow.w32, ← Sflow.w32, ← Sflow.w32, ss.map (·.1)⟩
   let exp := ss.filterMap fun (s, fr) => (refSample dg.agent dg.seq recv s fr).map FlowMsg.dump
   let pipe := if i % 2 = 0 then "sf" else "auto"
-  -- a raw header record that announces a shorter header than it carries (the header-length word of the record, XDR-padded
-  -- captures, sloppy agents): the bytes that are there are what was sampled — they are dissected, whatever the word says
+  -- a raw header record that announces a shorter header than it carries (the header-length word of the record, sloppy
+  -- agents): only the announced bytes were captured — ParseSampledHeaderConfig cuts the header data to the announced length
+  -- and dissects that. The reference mapping knows whole frames only: what such a datagram is expected to give is the
+  -- conversion model's answer (Pipe.sflowPipe, which is the reference mapping on every datagram left alone: Proofs/C09)
   let d0 := encode dg
-  let d ← (do
+  let (d, exp) ← (do
     match dg.samples with
     | .flow _ _ _ _ (.rawHeader 1 _ _ h :: _) :: _ =>
       if h.length ≥ 15 ∧ (← chance 1 2) then
         let off := (if dg.agent.length = 4 then 28 else 40) + 40 + 8 + 12
         let k ← pick [0, 14, h.length - 1, h.length - 3, h.length / 2]
-        pure (d0.take off ++ encBE 4 k ++ d0.drop (off + 4))
-      else pure d0
-    | _ => pure d0)
+        let d1 := d0.take off ++ encBE 4 k ++ d0.drop (off + 4)
+        let o := Pipe.sflowPipe {} default recv d1
+        if o.err.isNone then pure (d1, o.msgs.map FlowMsg.dump) else pure (d0, exp)
+      else pure (d0, exp)
+    | _ => pure (d0, exp))
   pure (header ++ [pktLine pipe e recv d, "expect res ok n=" ++ toString exp.length] ++ exp.map ("expect " ++ ·))
 
 def gen (n : Nat) : G (List String) := do
